@@ -107,7 +107,8 @@ def guard_dominated(prog, fn, site, tracer):
         # the site must be reachable only via a good edge: removing good targets' edges from b makes it unreachable
         if not good:
             continue
-        reach_bad = g.reachable([x for x in bad if x not in good])
+        reach_bad = g.reachable([x for x in bad if x not in good], avoid=[b])   # b dominates the site: a path that
+        # comes back to b (loop) is tested again
         if site['bb'] not in reach_bad:
             return {'guard_block': b, 'guard': '%s on %s' % (kind, sorted(tested)[:3])}
     return None
